@@ -273,7 +273,10 @@ Qed.
 (* what the for/break loop of get_result returns *)
 Lemma ladder_spec r index v a seqs :
   ladder r index v LADDER = ROk (Some (a, seqs)) ->
-  exists col, index_of_str v (rvars r) = Some col /    seqs = level_seqs r col (level_of a) /\ level_of a <= 2 /    choices_infinite index seqs = false /    forall j, j < level_of a -> choices_infinite index (level_seqs r col j) = true.
+  exists col, index_of_str v (rvars r) = Some col /\
+    seqs = level_seqs r col (level_of a) /\ level_of a <= 2 /\
+    choices_infinite index seqs = false /\
+    forall j, j < level_of a -> choices_infinite index (level_seqs r col j) = true.
 Proof.
   unfold LADDER, ladder, var_eval.
   destruct (index_of_str v (rvars r)) as [col|]; cbn [rbind]; [|discriminate].
@@ -293,7 +296,8 @@ Qed.
 
 Lemma ladder_none r index v :
   ladder r index v LADDER = ROk None <->
-  exists col, index_of_str v (rvars r) = Some col /    forall j, j <= 2 -> choices_infinite index (level_seqs r col j) = true.
+  exists col, index_of_str v (rvars r) = Some col /\
+    forall j, j <= 2 -> choices_infinite index (level_seqs r col j) = true.
 Proof.
   unfold LADDER, ladder, var_eval.
   destruct (index_of_str v (rvars r)) as [col|]; cbn [rbind].
@@ -326,7 +330,12 @@ Qed.
 Lemma get_result_ok r index v c vr :
   get_result r index v c = ROk vr ->
   exists col k mb,
-    index_of_str v (rvars r) = Some col /\ k <= 2 /    vr = VR v (flags_of_level k) (Some mb) (Some (level_seqs r col k)) /    bound_of (rvars r) (simple_matrix r c) v = Some mb /    first_ok index (level_seqs r col k) c = true /    choices_infinite index (level_seqs r col k) = false /    forall j, j < k -> choices_infinite index (level_seqs r col j) = true.
+    index_of_str v (rvars r) = Some col /\ k <= 2 /\
+    vr = VR v (flags_of_level k) (Some mb) (Some (level_seqs r col k)) /\
+    bound_of (rvars r) (simple_matrix r c) v = Some mb /\
+    first_ok index (level_seqs r col k) c = true /\
+    choices_infinite index (level_seqs r col k) = false /\
+    forall j, j < k -> choices_infinite index (level_seqs r col j) = true.
 Proof.
   unfold get_result. intros H. apply rbind_ok in H. destruct H as [o [Hl H]].
   destruct o as [[a seqs]|]; [|discriminate].
@@ -356,16 +365,23 @@ Lemma class_is_least_level r index v c vr :
   length (rmat r) = length (rvars r) ->
   get_result r index v c = ROk vr ->
   exists col k,
-    index_of_str v (rvars r) = Some col /\ k <= 2 /    vr_flags vr = flags_of_level k /    vr_choices vr = Some (level_seqs r col k) /    In c (vectors DOMAIN index) /    accepted (level_seqs r col k) c = true /    (forall j, j < k -> 0 < index /\ forall c', In c' (vectors DOMAIN index) -> accepted (level_seqs r col j) c' = false) /    (forall s, In s (column r c col) -> bad_at k s = false) /    (forall j, j < k -> exists s, In s (column r c col) /\ bad_at j s = true).
+    index_of_str v (rvars r) = Some col /\ k <= 2 /\
+    vr_flags vr = flags_of_level k /\
+    vr_choices vr = Some (level_seqs r col k) /\
+    In c (vectors DOMAIN index) /\
+    accepted (level_seqs r col k) c = true /\
+    (forall j, j < k -> 0 < index /\ forall c', In c' (vectors DOMAIN index) -> accepted (level_seqs r col j) c' = false) /\
+    (forall s, In s (column r c col) -> bad_at k s = false) /\
+    (forall j, j < k -> exists s, In s (column r c col) /\ bad_at j s = true).
 Proof.
   intros Hlen H. apply get_result_ok in H.
   destruct H as [col [k [mb [Hcol [Hk [-> [_ [Hf [_ Hlow]]]]]]]]].
   exists col, k. cbn [vr_flags vr_choices].
   unfold first_ok in Hf. apply andb_true_iff in Hf. destruct Hf as [Hd Ha]. apply in_domain_vectors in Hd.
   pose proof (index_of_str_lt _ _ _ Hcol) as Hlt.
-  repeat split; auto.
-  - apply choices_infinite_true. apply Hlow. assumption.
-  - apply (proj1 (choices_infinite_true _ _) (Hlow j H)).
+  split; [exact Hcol|]. split; [exact Hk|]. split; [reflexivity|]. split; [reflexivity|].
+  split; [exact Hd|]. split; [exact Ha|]. split; [|split].
+  - intros j Hj. apply choices_infinite_true. apply Hlow. exact Hj.
   - intros s Hs. rewrite accepted_column in Ha by assumption. apply negb_true_iff in Ha.
     destruct (bad_at k s) eqn:E; [|reflexivity].
     assert (existsb (bad_at k) (column r c col) = true) by (apply existsb_exists; eauto). congruence.
